@@ -53,7 +53,7 @@ Definition ref_cause (k : kind) (buf : bytes) : option cause :=
     match k with
     | KFieldBegin =>
       if len buf <? 1 then Some CTrunc
-      else if Z.eqb (to_signed 8 (nth 0 buf 0)) thrift_STOP then None
+      else if Z.eqb (to_signed 8 (nth 0 buf 0)) 0 then None   (* T_STOP *)
       else if len buf <? 3 then Some CTrunc else None
     | _ => ref_str buf
     end
@@ -62,7 +62,7 @@ Definition ref_cause (k : kind) (buf : bytes) : option cause :=
 (* message begin: version word (strict), name, sequence id *)
 Definition ref_msg (buf : bytes) : option cause :=
   if len buf <? 4 then Some CTrunc
-  else if negb (N.land (unbe (take 4 buf)) (Z.to_N thrift_msgVersionMask) =? Z.to_N thrift_msgVersion1)
+  else if negb (N.land (unbe (take 4 buf)) 4294901760 =? 2147549184)   (* 0xffff0000, VERSION_1 = 0x80010000 *)
   then Some CBadVersion
   else
     match ref_str (drop 4 buf) with
